@@ -75,7 +75,7 @@ def check(ctx):
                 seen_variants.add((sd.name, sh.n, int(i[:i.index(":")])))
         if sh.kind == "seq" and got.startswith("P:ok") and not t3 and not t2:
             seen_seq.add((sd.name, sh.n))
-        if len(ctx.samples) < 10 and rng.below(max(1, len(records) // 10)) == 0:
+        if len(ctx.samples) < 10 and nontriv and not t3 and not t2 and rng.below(max(1, len(records) // 25)) == 0:
             ctx.samples.append({"case": impl[:400], "oracle": want[:200]})
     arity.vm_crosscheck(ctx, records, model_exe, flags, Rng(ctx.seed).fork("vm"), k=12 if ctx.tier == "quick" else 40)
     if any(not o for n, o, _ in ctx.obligations if n.startswith("extraction cross-check")):
